@@ -274,6 +274,93 @@ fn all_seqs(len: usize, max_txn: u64, ents: &[(bool, u64)], out: &mut Vec<Vec<Op
     go(len, max_txn, ents, 0, &mut vec![], out);
 }
 
+/// `op` inserted at every position of every schedule (gc_auto dropping finished transactions /
+/// a version bump between any two steps of a conflict).
+fn with_inserted(base: &[Vec<Op>], op: &Op, out: &mut Vec<Vec<Op>>) {
+    for b in base {
+        for pos in 0..=b.len() {
+            let mut s = b[..pos].to_vec();
+            s.push(op.clone());
+            s.extend(b[pos..].iter().cloned());
+            out.push(s);
+        }
+    }
+}
+
+fn permutations(k: usize) -> Vec<Vec<usize>> {
+    fn go(k: usize, cur: &mut Vec<usize>, out: &mut Vec<Vec<usize>>) {
+        if cur.len() == k {
+            out.push(cur.clone());
+            return;
+        }
+        for i in 0..k {
+            if !cur.contains(&i) {
+                cur.push(i);
+                go(k, cur, out);
+                cur.pop();
+            }
+        }
+    }
+    let mut out = vec![];
+    go(k, &mut vec![], &mut out);
+    out
+}
+
+/// `k` transactions (k = 4, 5): all begun up front or each just before its write; write sets by
+/// pattern (all the same entity / alternating two entities / a node and the relationship with
+/// the same number); finished in every order, every commit|abort mask; isolation by pattern.
+fn many_txns(k: usize, sample: u64, seed: u64, out: &mut Vec<Vec<Op>>) {
+    let w = |t: u64, e: (bool, u64)| if e.0 { Op::WriteEdge(t, e.1) } else { Op::WriteNode(t, e.1) };
+    let patterns: Vec<Vec<(bool, u64)>> = vec![
+        vec![(false, 1)],
+        vec![(true, 1)],
+        vec![(false, 1), (false, 2)],
+        vec![(false, 1), (true, 1)],
+        vec![(true, 1), (true, 2)],
+    ];
+    let mut idx = 0u64;
+    for perm in permutations(k) {
+        for mask in 0..(1u32 << k) {
+            for (pi, pat) in patterns.iter().enumerate() {
+                for upfront in [true, false] {
+                    idx += 1;
+                    if sample > 1 && (idx + seed) % sample != 0 {
+                        continue;
+                    }
+                    let iso = |i: usize| (i + pi) % 2 == 0;
+                    let mut s = vec![];
+                    if upfront {
+                        for i in 0..k {
+                            s.push(Op::Begin(iso(i)));
+                        }
+                        for i in 0..k {
+                            s.push(w(i as u64 + 1, pat[i % pat.len()]));
+                        }
+                        for &i in &perm {
+                            s.push(if mask >> i & 1 == 1 { Op::Commit(i as u64 + 1) } else { Op::Abort(i as u64 + 1) });
+                        }
+                    } else {
+                        // staggered: transaction j (in finishing order) begins and writes, the one
+                        // before it in finishing order finishes afterwards -> every neighbour overlaps
+                        // ids are given in begin order = finishing order here
+                        for (j, &i) in perm.iter().enumerate() {
+                            s.push(Op::Begin(iso(i)));
+                            s.push(w(j as u64 + 1, pat[i % pat.len()]));
+                            if j > 0 {
+                                let prev = perm[j - 1];
+                                s.push(if mask >> prev & 1 == 1 { Op::Commit(j as u64) } else { Op::Abort(j as u64) });
+                            }
+                        }
+                        let last = perm[k - 1];
+                        s.push(if mask >> last & 1 == 1 { Op::Commit(k as u64) } else { Op::Abort(k as u64) });
+                    }
+                    out.push(s);
+                }
+            }
+        }
+    }
+}
+
 fn random_case(rng: &mut Rng, ents: &[(bool, u64)]) -> Vec<Op> {
     let len = 10 + rng.usize(30);
     let mut ops = vec![];
@@ -359,11 +446,44 @@ fn main() {
             all_seqs(5, 3, &ents[..2], &mut seqs);
         }
         all_seqs(4, 3, &ents, &mut seqs);
+        let n_core = seqs.len() - before;
+        // --- self-review families ---
+        // (a) two relationships / two nodes, every pair of isolation levels
+        let ents4: Vec<(bool, u64)> = vec![(false, 1), (false, 2), (true, 1), (true, 2)];
+        let b0 = seqs.len();
+        for isos in [[true, true], [true, false], [false, true], [false, false]] {
+            interleavings(2, 1, &ents4, &isos, &mut seqs);
+        }
+        rep.count_n("family:iso_pairs_4_entities", (seqs.len() - b0) as u64);
+        // (b) gc_auto (drops finished transactions from the table) and a bump at every position
+        let b1 = seqs.len();
+        let mut base2: Vec<Vec<Op>> = vec![];
+        for isos in [[true, true], [false, true], [true, false]] {
+            interleavings(2, 1, &[(false, 1), (true, 1)], &isos, &mut base2);
+        }
+        with_inserted(&base2, &Op::GcAuto, &mut seqs);
+        with_inserted(&base2, &Op::Bump, &mut seqs);
+        let mut base3: Vec<Vec<Op>> = vec![];
+        interleavings(3, 1, &[(false, 1)], &[true, false, true], &mut base3);
+        interleavings(3, 1, &[(true, 1)], &[true, true, false], &mut base3);
+        if !args.thorough() {
+            // quick tier: a third of the 3-transaction bases, rotating with the seed
+            let sd = args.seed as usize;
+            base3 = base3.into_iter().enumerate().filter(|(i, _)| (i + sd) % 3 == 0).map(|(_, b)| b).collect();
+        }
+        with_inserted(&base3, &Op::GcAuto, &mut seqs);
+        rep.count_n("family:gc_or_bump_inserted", (seqs.len() - b1) as u64);
+        // (c) 4 and 5 transactions
+        let b2 = seqs.len();
+        many_txns(4, if args.thorough() { 1 } else { 2 }, args.seed, &mut seqs);
+        many_txns(5, if args.thorough() { 2 } else { 16 }, args.seed, &mut seqs);
+        rep.count_n("family:four_five_txns", (seqs.len() - b2) as u64);
+        rep.count_n("family:core", n_core as u64);
         rep.exhaustive = true;
         rep.exhaustive_note = format!(
             "{} schedules: every interleaving of 3 transactions (begin, one write over {{node1,node2,rel1}}, commit|abort) and of 2 \
              transactions with two writes each; every sequence of length 4 (3 entities) and {} (2 entities) over the whole alphabet \
-             (handles: begun transactions + one unknown id; bump; gc_auto); plus PRNG schedules (not exhaustive)",
+             (handles: begun transactions + one unknown id; bump; gc_auto); every interleaving of 2 transactions with one write over              {{node1,node2,rel1,rel2}} for each of the 4 isolation pairs; gc_auto and a bump inserted at every position of every              2-transaction (and, sampled in the quick tier, 3-transaction) interleaving; 4 and 5 transactions finishing in every order              with every commit|abort mask (5: sampled); plus PRNG schedules (not exhaustive)",
             seqs.len() - before,
             if args.thorough() { 6 } else { 5 }
         );
